@@ -20,6 +20,7 @@ FAMILIES = {
     "lifecycle": ("grow_lifecycle", "app/lifecycle: start/stop hook ordering, shutdown budget, Run's error, late registration"),
     "inclusion": ("grow_inclusion", "core/tracker/inclusion.go: Submitted / per-slot check loop with lags 6 and 32 / Trim, inclusion by aggregation bits (Phase0 + Electra layouts), reports to log and tracker, WithTracking broadcaster edge"),
     "workflow": ("grow_workflow", "whole system: clusters of real app.Run nodes (QBFT over libp2p, validator mocks) under faults, every core.Wire edge call on every node trace-validated against the composed workflow (value flow, causal order, C01 one root per duty and validator)"),
+    "eth2wrap": ("grow_eth2wrapx", "app/eth2wrap: synthetic proposer duties/proposals + their cache (synthproposer.go), lazy connect-on-first-use client (lazy.go), ValidatorCache (cache.go); real wrappers over gated beaconmock under synctest"),
     "retry": ("grow_retry", "app/retry + core/retry.go: backoff, duty-deadline context, error classes, Shutdown accounting, wired edges"),
 }
 
